@@ -120,7 +120,7 @@ func runPath(e *Engine, solver *Solver, item WorkItem) (res *PathResult, pending
 	}
 	res.Trace = px.trace
 	res.Steps = px.steps
-	if res.Status == stOK && e.wantSample(px.trace) {
+	if res.Status == stOK && len(res.Candidates) == 0 && e.wantSample(px.trace) {
 		func() {
 			defer func() {
 				if r := recover(); r != nil {
